@@ -421,6 +421,9 @@ Proof.
     + cbn [wr_ok]. auto.
   - destruct (seq_data c); [|exact I]. destruct (aget kmeta (ofs c)); [|exact I]. apply wr_new_seq.
   - destruct (ocls c); try exact I. apply wr_read_all. intros cs. destruct (all_some len_of cs); [|exact I]. cbn [wr_ok]. auto.
+  - destruct (ocls c); try exact I. apply wr_read_all. intros scs. destruct (mapM _ scs); [|exact I].
+    apply wr_read_all. intros mcs. destruct (mapM _ mcs); [|exact I]. apply wr_read_all. intros fcs.
+    destruct (forallb _ fcs); [|exact I]. cbn [wr_ok]. auto.
   - exact I.
 Qed.
 Theorem pure_only_allocates i f j q s s' r : ostep (OPure i f j q) s = inl (s', r) ->
